@@ -11,6 +11,9 @@ hist shape=<n|i3|t2;3|t> ops=g5,g,s7,Si4,St2;3,Sn
        block = dims(;)/first/count/epoch
 histx shape=<n|i3|t2;3> ops=g,g5,g-3,gx,s7,s-1,sx,Sn,Si3,Si-1,St2;-1,Sx,q   (q = a non-mutating call)
      → same fields as `hist` plus err=<-|ValueError|TypeError> per call (raw calls, rejected ones included)
+histb shape=<..> ops=B5,gb,B7,sb,B99,Ct2;3,Sb,Ct9,g4,q    (R16: B<size> / C<shape> refill the caller's size /
+     shape buffer in place, gb / sb / Sb pass the buffer object, other tokens are `histx` calls)
+     → same fields as `histx`, one per CALL (refills are not calls)
 val Fd=f.. Ts=f.. first=<nat> j=<nat> phi=f..,f.. psi=f..,f..
                                                     → t=f.. re=f.. im=f.. | error:ZeroDivisionError
                                                       (entry j of a block whose first sample is `first`)
@@ -75,17 +78,42 @@ def parseRawOp? (s : String) : Option RawOp :=
   else if s.startsWith "S" then (parseRawShape? (s.drop 1).toString).map .setShape
   else none
 
+/-- the state string after the raw call `r` issued in state `s` -/
+def showStepR (s : State) (r : RawOp) : String :=
+  let (s', err) := stepR s r
+  let prod := match r.check with
+    | .ok op => produced s op
+    | .error _ => none
+  showState s' prod ++ " err=" ++ (match err with | none => "-" | some e => toString e)
+
 def histStatesR (a : ShapeArg) (ops : List RawOp) : List String :=
   let s0 := construct a
   let rec go (s : State) : List RawOp → List String
     | [] => []
-    | r :: rest =>
-      let (s', err) := stepR s r
-      let prod := match r.check with
-        | .ok op => produced s op
-        | .error _ => none
-      (showState s' prod ++ " err=" ++ (match err with | none => "-" | some e => toString e)) :: go s' rest
+    | r :: rest => showStepR s r :: go (stepR s r).1 rest
   (showState s0 s0.last ++ " err=-") :: go s0 ops
+
+/-- R16: a caller program (`B<size>` refills the size buffer, `C<shape>` the shape buffer, `gb` / `sb` / `Sb`
+    pass the buffer object, anything else is a raw call with a fresh argument) -/
+def parseCallerOp? (s : String) : Option CallerOp :=
+  if s = "gb" then some .genBuf
+  else if s = "sb" then some .skipBuf
+  else if s = "Sb" then some .setShapeBuf
+  else if s.startsWith "B" then (parseSize? (s.drop 1).toString).map .fillSize
+  else if s.startsWith "C" then (parseRawShape? (s.drop 1).toString).map .fillShape
+  else (parseRawOp? s).map .call
+
+/-- one state string per CALL of the program (refills are not calls), run with `stepC` -/
+def histStatesC (a : ShapeArg) (ops : List CallerOp) : List String :=
+  let s0 := construct a
+  let rec go (c : Caller) (s : State) : List CallerOp → List String
+    | [] => []
+    | op :: rest =>
+      let (c', s') := stepC c s op
+      match op.issued c with
+      | none => go c' s' rest
+      | some r => showStepR s r :: go c' s' rest
+  (showState s0 s0.last ++ " err=-") :: go { size := .default, shape := .none } s0 ops
 
 def handle (toks : List String) : String :=
   match toks with
@@ -98,6 +126,11 @@ def handle (toks : List String) : String :=
     match (kv rest "shape").bind parseShape?, (kv rest "ops").bind (fun s => (fields s ",").mapM parseRawOp?) with
     | some a, some ops => " | ".intercalate (histStatesR a ops)
     | some a, none => if (kv rest "ops").isNone then " | ".intercalate (histStatesR a []) else "bad-op"
+    | _, _ => "bad-op"
+  | "histb" :: rest =>
+    match (kv rest "shape").bind parseShape?, (kv rest "ops").bind (fun s => (fields s ",").mapM parseCallerOp?) with
+    | some a, some ops => " | ".intercalate (histStatesC a ops)
+    | some a, none => if (kv rest "ops").isNone then " | ".intercalate (histStatesC a []) else "bad-op"
     | _, _ => "bad-op"
   | "val" :: rest =>
     match (kv rest "Fd").bind parseFloat?, (kv rest "Ts").bind parseFloat?, (kv rest "first").bind String.toNat?,
